@@ -419,7 +419,7 @@ def apply_op(iso, op, sizes):
         elif k == 'add_symlink_udf':
             iso.add_symlink(symlink_path=op['iso'], udf_symlink_path=op['udf'], udf_target=op['target'])
         elif k == 'set_hidden':
-            kw = {{'iso': 'iso_path', 'jol': 'joliet_path'}[op['ns']]: op['path']}
+            kw = {{'iso': 'iso_path', 'jol': 'joliet_path', 'rr': 'rr_path'}[op['ns']]: op['path']}
             (iso.set_hidden if op['hidden'] else iso.clear_hidden)(**kw)
         elif k == 'add_eltorito':
             kw = {'bootcatfile': op['catalog']}
@@ -443,6 +443,8 @@ def apply_op(iso, op, sizes):
             iso.rm_eltorito()
         elif k == 'force_consistency':
             iso.force_consistency()
+        elif k == 'dup_pvd':
+            iso.duplicate_pvd()
         else:
             raise ValueError('unknown op ' + k)
         return 'ok'
